@@ -32,7 +32,7 @@ class Run:
         self.a, self.b = a, b
         self.kind = kind
         ra, rb = ("rows", a), ("rows", b)
-        flags = {}
+        flags = dict(sub_nonempty=True)  # diagrams are non-empty after any row filtering
         nonempty = {ra, rb}
         finite = {a, b}
         if kind == "dropped":  # some rows with infinite death exist in both diagrams and are filtered out
@@ -40,10 +40,10 @@ class Run:
             flags = dict(strict_sub=True, sub_nonempty=True)
         elif kind == "empty1":
             nonempty = {rb}
-            flags = dict(empty={ra})
+            flags = dict(empty={ra}, sub_nonempty=True)
         elif kind == "empty2":
             nonempty = {ra}
-            flags = dict(empty={rb})
+            flags = dict(empty={rb}, sub_nonempty=True)
         self.interp = Interp(project, Config(nonempty=nonempty, finite_inputs=finite, flags=flags))
         fi = project.function(qual)
         params = fi.params
@@ -149,6 +149,11 @@ def check_tiling(rep, rule, run: Run, D: Blocks, fi):
     M, N = sym.Size(("rows", run.a)), sym.Size(("rows", run.b))
     if run.kind == "dropped":
         return
+    roles0 = block_roles(run, D)
+    if len(roles0.get("cross", [])) == 1 and isinstance(roles0["cross"][0]["val"], Arr):
+        # M, N are the numbers of rows of the two diagrams as they enter the matrix (after any row filtering)
+        cv = roles0["cross"][0]["val"]
+        M, N = cv.axes[0][0].size, cv.axes[1][0].size
     total = sym.add(M, N)
     ok = True
     if not (sym.equal(D.shape[0], total) and sym.equal(D.shape[1], total)):
@@ -212,27 +217,43 @@ def check_filter(rep, rule, project, qual):
             for x in sym.walk(e):
                 if x[0] == "in":
                     spaces.setdefault(x[1], set())
-    # row spaces: the sizes appearing in the matrix shape
-    sizes = {t[1] for t in sym.walk(D.shape[0]) if t[0] == "size"}
+    # row spaces: every mask applied to a diagram's rows before they enter the matrix
+    sizes = {t[1] for e in D.shape for t in sym.walk(e) if t[0] == "size"}
     for name in (run.a, run.b):
-        filt = [k for k in sizes if isinstance(k, tuple) and k[0] == "sub" and k[1] == ("rows", name)]
-        raw = [k for k in sizes if k == ("rows", name)]
-        if filt and not raw:
-            cond = filt[0][2]
-            want = sym.fn("isfinite", sym.In(name, ((_row_iv(cond), 0), 1)))
-            if cond == want or (cond[0] == "cmp" and cond[1] == "!=" and cond[3] == sym.INF and cond[2][0] == "in"
-                                and cond[2][2][1] == 1):
-                rep.discharged(rule, fi, fi.node, f"rows of `{name}` reach the cost matrix only through the mask "
-                                                  f"{sym.show(cond)} on the death column")
+        chains = []
+        for k in sizes:
+            masks = []
+            kk = k
+            while isinstance(kk, tuple) and kk and kk[0] == "sub":
+                masks.append(kk[2])
+                kk = kk[1]
+            if kk == ("rows", name):
+                chains.append(masks)
+        if not chains:
+            rep.unmodelled(rule, fi, fi.node, f"rows of `{name}` not found in the matrix shape")
+            continue
+        masks = chains[0]
+        finite_ok = False
+        for cond in masks:
+            kind = classify_row_mask(cond, name)
+            if kind == "finite-death":
+                finite_ok = True
+                rep.discharged(rule, fi, fi.node, f"rows of `{name}` pass the mask {sym.show(cond)} on the death column")
+            elif kind == "off-diagonal":
+                rep.discharged(rule, fi, fi.node, f"rows of `{name}` also pass {sym.show(cond)}: only points lying exactly on the "
+                                                  f"diagonal are discarded (cost 0, no influence on the value)")
+            elif kind == "finite-birth":
+                rep.refuted(rule, fi, fi.node, f"the row filter of `{name}` tests the birth column ({sym.show(cond)}); rows "
+                                               f"with infinite death are kept",
+                            construct=f"{qual}: filter of {name}: {sym.show(cond)}")
+            elif kind == "scale-dependent":
+                rep.refuted(rule, fi, fi.node,
+                            f"points of `{name}` are discarded by {sym.show(cond)[:160]}, a test that mixes coordinates with an "
+                            f"absolute constant: points of small but positive persistence stop influencing the distance at "
+                            f"small numeric scales", construct=f"{qual}: extra row filter on {name}")
             else:
-                col = [x for x in sym.walk(cond) if x[0] == "in"]
-                if col and all(c[2][1] == 0 for c in col):
-                    rep.refuted(rule, fi, fi.node, f"the row filter of `{name}` tests the birth column "
-                                                   f"({sym.show(cond)}); rows with infinite death are kept",
-                                construct=f"{qual}: filter of {name}: {sym.show(cond)}")
-                else:
-                    rep.unmodelled(rule, fi, fi.node, f"unrecognised row filter for `{name}`: {sym.show(cond)}")
-        else:
+                rep.unmodelled(rule, fi, fi.node, f"unrecognised row filter for `{name}`: {sym.show(cond)[:160]}")
+        if not finite_ok and not any(classify_row_mask(c, name) in ("finite-birth",) for c in masks):
             rep.refuted(rule, fi, fi.node,
                         f"diagram `{name}` reaches the cost matrix without the finite-death row filter: points with "
                         f"infinite death influence the distance",
@@ -246,6 +267,32 @@ def check_filter(rep, rule, project, qual):
                     f"rows with non-finite death are dropped with {len(warns)} warning(s) instead of one per diagram",
                     construct=f"{qual}: warnings on dropped rows")
     return run
+
+
+def classify_row_mask(cond, name):
+    ins = [x for x in sym.walk(cond) if x[0] == "in"]
+    cols = {x[2][1] for x in ins}
+    # isfinite(death) / death != inf
+    if cond[0] == "fn" and cond[1] == "isfinite" and cols == {1}:
+        return "finite-death"
+    if cond[0] == "cmp" and cond[1] == "!=" and cond[3] == sym.INF and cols == {1}:
+        return "finite-death"
+    if cond[0] == "not" and cond[1][0] == "fn" and cond[1][1] == "isinf" and cols == {1}:
+        return "finite-death"
+    if (cond[0] == "fn" and cond[1] == "isfinite" and cols == {0}) or (cond[0] == "cmp" and cond[3] == sym.INF and cols == {0}):
+        return "finite-birth"
+    # death > birth / death != birth: exactly the diagonal points are dropped
+    if cond[0] == "cmp" and cond[1] in (">", "!=", "<") and cols == {0, 1}:
+        d = sym.sub(cond[2], cond[3])
+        terms, c = sym.lin_parts(d)
+        if c == 0 and len(terms) == 2 and all(t[0] == "in" for t in terms) and abs(sum(terms.values())) < 1e-12:
+            coef_death = [k for t, k in terms.items() if t[2][1] == 1][0]
+            if cond[1] == "!=" or (cond[1] == ">" and coef_death > 0) or (cond[1] == "<" and coef_death < 0):
+                return "off-diagonal"
+    d = facets.degree(cond, facets.DegDecl())
+    if facets.is_top(d) and not d.reason.startswith("unmodelled"):
+        return "scale-dependent"
+    return None
 
 
 def _row_iv(cond):
